@@ -348,8 +348,15 @@ def rule_thr(ctx) -> None:
                 if isinstance(x, ast.Assign) and len(x.targets) == 1 and isinstance(x.targets[0], ast.Name) and any(isinstance(y, ast.Name) and y.id in knames for y in ast.walk(x.value)):
                     knames.add(x.targets[0].id)
         # ... and cut to k (the cluster-centroid list is sorted too, but cut to clusters_top_m and has no threshold)
-        sorted_lists = {L for L in sorted_lists if any(isinstance(x, ast.Subscript) and src(x.value) == L and isinstance(x.slice, ast.Slice) and x.slice.upper is not None
-                                                       and any(isinstance(y, ast.Name) and y.id in knames for y in ast.walk(x.slice.upper)) for x in walk_no_defs(fn.node))}
+        def cut_to_k(L: str) -> bool:
+            return any(isinstance(x, ast.Subscript) and src(x.value) == L and isinstance(x.slice, ast.Slice) and x.slice.upper is not None
+                       and any(isinstance(y, ast.Name) and y.id in knames for y in ast.walk(x.slice.upper)) for x in walk_no_defs(fn.node))
+
+        # ... directly, or through a list filled while walking it (the de-duplicated copy)
+        walked_into = {L: {src(c.func.value) for lp in walk_no_defs(fn.node) if isinstance(lp, ast.For) and src(lp.iter) == L
+                           for st in lp.body for c in ast.walk(st) if isinstance(c, ast.Call) and call_tail(c) == "append" and isinstance(c.func.value, ast.Name)}
+                       for L in sorted_lists}
+        sorted_lists = {L for L in sorted_lists if cut_to_k(L) or any(cut_to_k(D) for D in walked_into.get(L, ()))}
         for n in cfg.nodes:
             for c in node_calls(n):
                 if call_tail(c) == "append" and src(c.func.value) in sorted_lists and c.args and isinstance(c.args[0], ast.Tuple):
@@ -422,6 +429,73 @@ def rule_distinct(ctx) -> None:
         heads = [h for h in cfg.nodes if h.kind == "iter"]
         p = cfg.path([n], lambda x: x in heads or x is cfg.exit, avoid=lambda x: x in adds, edge_ok=no_exc, include_start=False)
         ctx.check(p is None, "C11.DISTINCT", ctx.okey(f"{t2.qual}/seen-add"), t2.loc(c), "each append is followed by seen_ids.add(id)", "an appended id is not recorded in seen_ids on some path")
+
+
+def rule_distinct_before_cut(ctx) -> None:
+    """"at most k DISTINCT episodes": the index's ranked list is cut to k after rows sharing an id were folded, not before -
+    otherwise a repeated id takes several of the k slots, the tier walk (which de-duplicates afterwards) returns fewer
+    than k although other episodes qualify, and the cross-shard merge (which de-duplicates while filling) returns another
+    list than the sequential walk."""
+    fn = ctx.func(IDX + ":InMemoryIndex._rank_by_cosine")
+    cfg = ctx.cfg(fn)
+    kparam = "k" if "k" in fn.params else fn.params[-2]
+    cuts = [(r, r.value) for r in walk_no_defs(fn.node) if isinstance(r, ast.Return) and isinstance(r.value, ast.Subscript) and isinstance(r.value.slice, ast.Slice)
+            and r.value.slice.upper is not None and kparam in {y.id for y in ast.walk(r.value.slice.upper) if isinstance(y, ast.Name)}]
+    ctx.floor("C11.DISTINCT", "ranked lists cut to k in the index", len(cuts), 1)
+    for r, sub in cuts:
+        L = src(sub.value)
+        apps = [(n, c) for n in cfg.nodes for c in node_calls(n) if call_tail(c) == "append" and src(c.func.value) == L]
+        sets = {(x.targets[0] if isinstance(x, ast.Assign) else x.target).id for x in walk_no_defs(fn.node) if isinstance(x, (ast.Assign, ast.AnnAssign)) and x.value is not None
+                and (isinstance(x.value, ast.Call) and dotted(x.value.func) == "set" or isinstance(x.value, (ast.Set, ast.Dict))) and isinstance((x.targets[0] if isinstance(x, ast.Assign) else x.target), ast.Name)}
+        ok = bool(apps) and all(any(((not p) and any(t.endswith(f" in {sn}") and " not in " not in t for sn in sets)) or (p and any(t.endswith(f" not in {sn}") for sn in sets)) for t, p in cfg.facts(n)) for n, c in apps)
+        ctx.check(ok, "C11.DISTINCT", ctx.okey(f"{fn.qual}/distinct-before-cut"), fn.loc(sub), f"`{src(sub)}`: every append to `{L}` is under a seen-id test, so the k slots go to k distinct episodes",
+                  f"`{src(sub)}` cuts a list in which rows sharing an id each hold a slot: with a repeated id the result has fewer than k distinct episodes although others qualify, and it differs from "
+                  "the cross-shard merge, which folds duplicates while it fills to k")
+
+
+def rule_rescore_scope(ctx) -> None:
+    """the combined score takes an episode's timestamp and importance from a map id -> episode built over the index's raw
+    storage: that map holds only episodes visible under the query's owner scope (ids are not unique across owners), and the
+    numeric fields it supplies are converted under a guard (JSON null / text in `importance` must not abort retrieval)."""
+    t2 = ctx.func(T2)
+    cfg = ctx.cfg(t2)
+    rd = ctx.rd(t2)
+    raw = {d.name for d in rd.all_defs if d.value is not None and isinstance(d.value, ast.Call) and dotted(d.value.func) == "getattr" and len(d.value.args) >= 2 and const_str(d.value.args[1]) == "_eps"}
+    if not raw:
+        raise AnalysisError("anchor-vanished: t2_semantic no longer reads the index's raw episode list")
+    n_maps = 0
+    for x in walk_no_defs(t2.node):
+        if isinstance(x, (ast.DictComp, ast.ListComp, ast.GeneratorExp, ast.SetComp)) and any(isinstance(g.iter, ast.Name) and g.iter.id in raw for g in x.generators):
+            n_maps += 1
+            g = next(g for g in x.generators if isinstance(g.iter, ast.Name) and g.iter.id in raw)
+            el = src(g.target)
+            scoped = any(isinstance(c, (ast.Compare, ast.BoolOp)) and "owner" in src(c) and el in src(c) for c in g.ifs)
+            # the owner it is compared with comes from owner_for_query
+            owners = {d.name for d in rd.all_defs if d.value is not None and isinstance(d.value, ast.Call) and call_tail(d.value) in ("owner_for_query", "_owner_for_query")}
+            scoped = scoped and any(isinstance(y, ast.Name) and y.id in owners for c in g.ifs for y in ast.walk(c))
+            if not scoped:
+                # ... or every record looked up in the map is owner-tested before it is used (the reader path hydrates, then tests)
+                par = ctx.prog.parents(t2.node).get(id(x))
+                while par is not None and not isinstance(par, (ast.Assign, ast.AnnAssign)):
+                    par = ctx.prog.parents(t2.node).get(id(par))
+                mname = next((t.id for t in (par.targets if isinstance(par, ast.Assign) else [par.target]) if isinstance(t, ast.Name)), None) if par is not None else None
+                looked = {d.name for d in rd.all_defs if mname and d.value is not None and any(isinstance(y, ast.Call) and call_tail(y) == "get" and src(y.func.value) == mname for y in ast.walk(d.value))}
+                scoped = bool(looked) and any(isinstance(c, ast.Compare) and any(isinstance(y, ast.Call) and call_tail(y) == "get" and src(y.func.value) in looked and y.args and const_str(y.args[0]) == "owner" for y in ast.walk(c))
+                                              and any(isinstance(y, ast.Name) and y.id in owners for y in ast.walk(c)) for c in walk_no_defs(t2.node))
+            ctx.check(scoped, "C11.OWNER", ctx.okey(f"{t2.qual}/rescoring-map-owner-scoped"), t2.loc(x), "the id -> episode map used for recency / importance holds only episodes of the queried owner",
+                      f"`{src(x)[:70]}` maps ids to episodes over ALL owners (last one wins): an agent-scoped hit whose id also exists under another owner is scored with that owner's timestamp and "
+                      "importance - another owner's memory reorders an agent-scoped result")
+    ctx.floor("C11.OWNER", "maps built over the raw episode list in t2_semantic", n_maps, 1)
+    # numeric episode fields
+    n_conv = 0
+    for x in walk_no_defs(t2.node):
+        if isinstance(x, ast.Call) and dotted(x.func) in ("float", "int") and x.args and any(isinstance(y, ast.Call) and call_tail(y) == "get" and y.args and const_str(y.args[0]) in ("importance", "ts", "aux") for y in ast.walk(x.args[0])):
+            n_conv += 1
+            guarded = any(isinstance(st, ast.Try) and part == "body" for st, part in enclosing(ctx.prog, t2, x))
+            ctx.check(guarded, "C11.RANK", ctx.okey(f"{t2.qual}/episode-field-conversion-guarded"), t2.loc(x), f"`{src(x)[:50]}` converts under try/except",
+                      f"`{src(x)[:50]}` converts an episode field without a guard: `.get(k, default)` covers the missing key only - a JSON null or text there raises out of t2_semantic and no query "
+                      "that hits the episode returns anything")
+    ctx.floor("C11.RANK", "numeric conversions of episode fields in the rescoring", n_conv, 1)
 
 
 def rule_tier(ctx) -> None:
@@ -815,6 +889,8 @@ def run(ctx) -> None:
     rule_thr(ctx)
     rule_k(ctx)
     rule_distinct(ctx)
+    rule_distinct_before_cut(ctx)
+    rule_rescore_scope(ctx)
     rule_tier(ctx)
     rule_rank(ctx)
     rule_perm(ctx)
